@@ -44,7 +44,7 @@ CHECKS = {
              "the loop has not stopped on everything obtained so far). Compiled scanners (4 back ends, buffer sizes 1..64, read "
              "schedules, FILE / yy_scan_string / yy_scan_bytes / yy_scan_buffer) are judged by the proved validator, and the "
              "interleaving of their read requests with tokens is compared with the extracted window machine on the chunks really "
-             "delivered. Partial: the buffer address arithmetic (R4b) is tied by correspondence only.",
+             "delivered. The buffer as addresses (coq/BufLayout.v): C03_overlapping_move_is_right, C03_refill_fits_the_buffer, C03_refill_is_window_append, C03_every_request_asks_for_something; its request sizes are compared with the max_size of every real request.",
         design="DESIGN.md section 6 C03", technique="machine-checked proof (Rocq) of the refill control flow + proved validator + differential request/token streams"),
     "C04": dict(
         text="Rocq theorems: C04_all_bytes_incl_nul (the match-loop theorem with the lock-step premise checked over all 256 byte values, "
